@@ -328,9 +328,17 @@ func (txmp *TxMempool) ReapMaxBytesMaxGas(maxBytes, maxGas int64) types.Txs {
 	for _, w := range txmp.allEntriesSorted() {
 		// N.B. When computing byte size, we need to include the overhead for
 		// encoding as protobuf to send to the application.
+		//
+		// The gas limit is compared before adding: totalGas <= maxGas holds
+		// here, so for a positive gasWanted maxGas-gasWanted cannot overflow,
+		// whereas totalGas+gasWanted can (and would wrap to a negative total
+		// that passes the limit).
+		if maxGas >= 0 && w.gasWanted > 0 && totalGas > maxGas-w.gasWanted {
+			break
+		}
 		totalGas += w.gasWanted
 		totalBytes += types.ComputeProtoSizeForTxs([]types.Tx{w.tx})
-		if (maxGas >= 0 && totalGas > maxGas) || (maxBytes >= 0 && totalBytes > maxBytes) {
+		if maxBytes >= 0 && totalBytes > maxBytes {
 			break
 		}
 		keep = append(keep, w.tx)
